@@ -79,7 +79,7 @@ class ParserUtils:
             The bool value or None if it doesn't exist.
         """
         xsi_nil = attrs.get(QNames.XSI_NIL)
-        return xsi_nil == constants.XML_TRUE if xsi_nil else None
+        return xsi_nil.strip() in (constants.XML_TRUE, "1") if xsi_nil else None
 
     @classmethod
     def parse_var(
